@@ -8,6 +8,7 @@ package main
 import (
 	"fmt"
 	"strings"
+	"sync"
 	"time"
 
 	"vf/ev"
@@ -302,9 +303,93 @@ func scenarioDialog() int {
 	return run.Finish(50)
 }
 
+// concurrentSetup: many calls are set up one after the other, then all their backends
+// answer at the same moment (datagrams from different backends queue back to back on
+// the proxy's socket); afterwards every dialog must stick to its own backend.
+func (w *dialogWorld) concurrentSetup(h int) {
+	g := w.g
+	svc := g.R.Intn(len(w.Svcs))
+	if w.Svcs[svc].DialogTimeout > 0 {
+		svc = (svc + 1) % len(w.Svcs)
+	}
+	sv := w.Svcs[svc]
+	type call struct {
+		d   *dlg
+		be  *wire.Obs
+		id  string
+		rid string
+	}
+	var calls []*call
+	for i := 0; i < 6+g.R.Intn(15); i++ {
+		d := &dlg{n: i, svc: svc, backend: -1, kind: "invite"}
+		d.callID = g.Alnum(8, 14) + "@" + g.Hostname()
+		d.a, d.b = w.genParty(h*100+i, "alice"), w.genParty(h*100+i, "bob")
+		id := w.nextID("i")
+		m := w.request(id, "INVITE", svc, d.a, dparty{d.b.uri, ""}, d.callID)
+		obs, _, ok := w.sendFromUA(m, id, g.R.Intn(len(w.UAs)), svc, "udp")
+		be := w.atBackends(svc, obs)
+		if !ok || len(be) != 1 {
+			continue
+		}
+		w.noteUnpinned(svc, id, obs, "initial INVITE")
+		d.backend = backendIndex(be[0].Ep)
+		calls = append(calls, &call{d: d, be: be[0], id: id, rid: id + "x200"})
+	}
+	// all answers at once
+	var wg sync.WaitGroup
+	for _, c := range calls {
+		wg.Add(1)
+		go func(c *call) {
+			defer wg.Done()
+			resp := &sip.Msg{Start: "SIP/2.0 200 OK"}
+			for _, hd := range c.be.Msg.Headers {
+				switch sip.Canon(hd.Name) {
+				case "via", "from", "call-id", "cseq":
+					resp.Headers = append(resp.Headers, hd)
+				case "to":
+					resp.Headers = append(resp.Headers, sip.Header{Name: hd.Name, Value: hd.Value + ";tag=" + c.d.b.tag})
+				}
+			}
+			resp.Headers = append(resp.Headers, sip.Header{Name: "X-Vf", Value: c.rid}, sip.Header{Name: "Content-Length", Value: "0"})
+			if c.be.Proto == "udp" {
+				for _, e := range sv.BeUDP {
+					if e.Name == c.be.Ep {
+						e.Send(fmt.Sprintf("%s:%d", sv.IP, sv.UDP), resp.Bytes(), c.rid)
+					}
+				}
+			} else {
+				for _, l := range sv.BeTCP {
+					if cn := l.ConnByID(c.be.Conn); cn != nil {
+						cn.Send(resp.Bytes(), c.rid)
+					}
+				}
+			}
+		}(c)
+	}
+	wg.Wait()
+	for _, c := range calls {
+		if _, ok := w.Net.WaitCase(c.rid, func(o []*wire.Obs) bool { return len(o) >= 1 }, w.BarrierWait); ok {
+			c.d.pinned = true
+			w.stats["dialogs_established_concurrently"]++
+		}
+	}
+	for _, c := range calls {
+		if c.d.pinned {
+			w.probe(c.d)
+			if !c.d.ended {
+				w.probe(c.d)
+			}
+		}
+	}
+}
+
 // history runs one interleaved history on one service.
 func (w *dialogWorld) history(h int) {
 	g := w.g
+	if h%5 == 4 {
+		w.concurrentSetup(h)
+		return
+	}
 	svc := g.R.Intn(len(w.Svcs))
 	nd := 1 + g.R.Intn(10)
 	if g.R.Intn(5) == 0 {
@@ -556,6 +641,8 @@ type ptDialog struct {
 	be       *wire.Obs
 	dissolve string // "", bye, terminated, dontcare
 	invID    string
+	// ringFirst: a 180 with the To-tag precedes the 200 that carries the Expires
+	ringFirst bool
 }
 
 // scenarioPinTime: dialogTimeout 2 s on the real binary; lifetimes 2-4 s.
@@ -587,7 +674,7 @@ func scenarioPinTime() int {
 			break
 		}
 		var evs []ptEvent
-		plans := []string{"early+late", "early+late", "bye", "bye", "bye", "notify-terminated", "notify-active", "notify-reason", "expires-larger", "expires-smaller", "early+late"}
+		plans := []string{"early+late", "early+late", "ringing-then-expires", "bye", "bye", "bye", "notify-terminated", "notify-active", "notify-reason", "expires-larger", "expires-smaller", "early+late"}
 		for i := 0; i < perBatch; i++ {
 			d := &ptDialog{}
 			d.n, d.svc, d.backend, d.kind = i, g.R.Intn(len(w.Svcs)), -1, "invite"
@@ -596,9 +683,10 @@ func scenarioPinTime() int {
 			plan := plans[g.R.Intn(len(plans))]
 			d.life = timeout
 			switch plan {
-			case "expires-larger":
+			case "expires-larger", "ringing-then-expires":
 				d.expires = 4 + g.R.Intn(2)
 				d.life = time.Duration(d.expires) * time.Second
+				d.ringFirst = plan == "ringing-then-expires"
 			case "expires-smaller":
 				d.expires = 1
 			}
@@ -625,7 +713,7 @@ func scenarioPinTime() int {
 				evs = append(evs, ptEvent{at: t0 + frac(45, 60), d: d, what: "probe", arg: plan})
 			default:
 				early := frac(20, 60)
-				if plan == "expires-larger" {
+				if plan == "expires-larger" || plan == "ringing-then-expires" {
 					early = frac(56, 60) // beyond the plain dialog timeout, inside the promised lifetime
 				}
 				evs = append(evs, ptEvent{at: t0 + early, d: d, what: "probe", arg: plan + "/early"})
@@ -706,6 +794,9 @@ func (w *dialogWorld) ptExec(e ptEvent) {
 		var extra []sip.Header
 		if d.expires > 0 {
 			extra = append(extra, sip.Header{Name: "Expires", Value: fmt.Sprint(d.expires)})
+		}
+		if d.ringFirst {
+			w.respondFromBackend(d.svc, be[0], id, 180, d.b.tag)
 		}
 		d.pinStart = time.Now()
 		if !w.respondFromBackend(d.svc, be[0], id, 200, d.b.tag, extra...) {
